@@ -28,7 +28,8 @@ func init() {
 		Outside:     []string{"DoMulti/DoCache/DoMultiCache/Receive retry loops, sentinel and standalone clients (same isRetryable predicate), dedicated clients", "the default RetryDelay function (exponential back-off with jitter)"},
 		Bounds:      map[string]any{"quick": "≤ 3 attempts (single), ≤ 4 hops (cluster)", "thorough": "≤ 4 attempts, ≤ 5 hops"},
 		specs: func(tier string) []specRef {
-			return []specRef{hsx(rootPkg, "VerifC28_single", P{"max_attempts": q(tier, int64(3), 4)}, 3000000, 3000, "retried", "returned"), redirect(tier)}
+			return []specRef{hsx(rootPkg, "VerifC28_single", P{"max_attempts": q(tier, int64(3), 4)}, 3000000, 3000, "retried", "returned"),
+				hsx(rootPkg, "VerifC28_multi", P{"max_attempts": q(tier, int64(3), 4)}, 3000000, 3000, "retried", "dropped", "returned"), redirect(tier)}
 		},
 	}
 }
